@@ -253,6 +253,135 @@ def generator_window_probe(ctx, FatFileSystem):
     return True
 
 
+def readonly_volume_probe(ctx, FatFileSystem):
+    """Mutating operations on a volume mapped READ-ONLY (what DiskImage gives by default) must fail -- and, like every
+    operation that raises, leave the calling thread holding nothing: another thread can take the lock afterwards."""
+    rng = ctx.rng
+    for ft in ('fat12', 'fat16', 'fat32'):
+        g = fatimg.Geometry(ft, 80, spc=1, bps=512, nfats=2, root_entries=64, type_string=True)
+        b = fatimg.Builder(g, rng)
+        used = set()
+        b.add(b.tree, 'f.txt', fatimg.alias_for('f.txt', used), data=b'x' * 700)
+        d = b.add(b.tree, 'd', fatimg.alias_for('d', used), is_dir=True)
+        b.add(d, 'inner.txt', fatimg.alias_for('inner.txt', set()), data=b'y')
+        frozen = bytes(b.img)
+        with warnings.catch_warnings():
+            warnings.simplefilter('ignore')
+            fs = FatFileSystem(memoryview(frozen))
+        try:
+            ops = [('unlink', lambda: (fs.root / 'f.txt').unlink()), ('mkdir', lambda: (fs.root / 'new').mkdir()),
+                   ('rmdir', lambda: (fs.root / 'd').rmdir()), ('rename', lambda: (fs.root / 'f.txt').rename(fs.root / 'g.txt')),
+                   ('touch', lambda: (fs.root / 't').touch()), ('write_bytes', lambda: (fs.root / 'f.txt').write_bytes(b'z')),
+                   ('open-w', lambda: (fs.root / 'w').open('wb').close()), ('read_bytes', lambda: (fs.root / 'f.txt').read_bytes())]
+            for label, fn in ops:
+                outcome = 'returned'
+                try:
+                    with warnings.catch_warnings():
+                        warnings.simplefilter('ignore')
+                        fn()
+                except BaseException as e:      # noqa: BLE001
+                    outcome = type(e).__name__
+                got = []
+                th = threading.Thread(target=lambda: got.append(fs.lock.write.acquire(timeout=2) and (fs.lock.write.release() or True)))
+                th.start(); th.join(5)
+                ctx.case(('readonly', ft, label), True, 'readonly-volume')
+                if got != [True]:
+                    ctx.violation('fs.locks/locks-not-released', f'{label} on a read-only {ft} volume ({outcome}): afterwards another thread cannot take the '
+                                  f'lock -- the failed operation left the calling thread holding it', dict(fat_type=ft, op=label, outcome=outcome))
+                    return False
+                if label != 'read_bytes' and outcome == 'returned':
+                    ctx.violation('fs.locks/readonly-volume-mutated', f'{label} on a read-only {ft} volume returned normally', dict(fat_type=ft, op=label))
+                    return False
+        finally:
+            try:
+                fs.close()
+            except Exception:
+                pass
+    return True
+
+
+def torn_read_probe(ctx, FatFileSystem):
+    """A whole-file read of a multi-cluster file; every time the reading thread lets go of the read side while the read
+    is still running, another thread rewrites the file completely.  What the reader gets must be the old content or the
+    new content, never a mixture."""
+    import nobodd.fs as F
+    rng = ctx.rng
+    for ft in ('fat12', 'fat16', 'fat32'):
+        for how in ('raw-readall', 'buffered-read', 'read_bytes'):
+            g = fatimg.Geometry(ft, 120, spc=1, bps=512, nfats=2, root_entries=64, type_string=True)
+            b = fatimg.Builder(g, rng)
+            buf = bytearray(b.img)
+            st = dict(r=0, busy=False, fs=None, fired=0)
+            main = threading.main_thread()
+            old, new = b'A' * (5 * g.cs + 7), b'B' * (5 * g.cs + 7)
+            def rewrite():
+                with warnings.catch_warnings():
+                    warnings.simplefilter('ignore')
+                    with (st['fs'].root / 'big.bin').open('r+b') as f:
+                        f.write(new)
+            class Rd:
+                def __init__(s, inner):
+                    s.inner = inner
+                def acquire(s, *a, **k):
+                    r = s.inner.acquire(*a, **k)
+                    if r and threading.current_thread() is main:
+                        st['r'] += 1
+                    return r
+                def release(s):
+                    s.inner.release()
+                    if threading.current_thread() is main:
+                        st['r'] -= 1
+                        if st['r'] == 0 and st['busy'] and st['fired'] < 3:
+                            st['fired'] += 1
+                            th = threading.Thread(target=rewrite)
+                            th.start(); th.join(10)
+                def __enter__(s):
+                    s.acquire()
+                    return s
+                def __exit__(s, *exc):
+                    s.release()
+            Real = F.RWLock
+            class RW(Real):
+                def __init__(s):
+                    super().__init__()
+                    s.read = Rd(s.read)
+            F.RWLock = RW
+            try:
+                with warnings.catch_warnings():
+                    warnings.simplefilter('ignore')
+                    fs = FatFileSystem(memoryview(buf))
+            finally:
+                F.RWLock = Real
+            st['fs'] = fs
+            try:
+                with warnings.catch_warnings():
+                    warnings.simplefilter('ignore')
+                    (fs.root / 'big.bin').write_bytes(old)
+                    if how == 'read_bytes':
+                        st['busy'] = True
+                        got = (fs.root / 'big.bin').read_bytes()
+                        st['busy'] = False
+                    else:
+                        f = (fs.root / 'big.bin').open('rb', buffering=0 if how == 'raw-readall' else -1)
+                        st['busy'] = True
+                        got = f.readall() if how == 'raw-readall' else f.read()
+                        st['busy'] = False
+                        f.close()
+            finally:
+                st['busy'] = False
+                try:
+                    fs.close()
+                except Exception:
+                    pass
+            ctx.case(('torn-read', ft, how), True, 'torn-read-probe')
+            if got not in (old, new):
+                mix = ''.join('A' if got[i * g.cs:(i + 1) * g.cs].startswith(b'A') else 'B' for i in range(6))
+                ctx.violation('fs.atomic/torn-read', f'{how} of a 6-cluster file on {ft} while another thread rewrites it whenever the reader lets go of the '
+                              f'read side: the reader got a mixture of old and new clusters ({mix})', dict(fat_type=ft, how=how, clusters=mix))
+                return False
+    return True
+
+
 def conflicting_op(op):
     """an operation of another thread that a check-then-act on op's target must not let slip in"""
     k = op['op']
@@ -357,6 +486,10 @@ def run(ctx, build):
     rng = ctx.rng
     from nobodd.fs import FatFileSystem as _FFS
     if not generator_window_probe(ctx, _FFS):
+        return
+    if not torn_read_probe(ctx, _FFS):
+        return
+    if not readonly_volume_probe(ctx, _FFS):
         return
     nhist = 30 if ctx.thorough else 8
     if ctx.widen:
